@@ -256,6 +256,39 @@ Theorem C06_codec_port_classification_preserved : forall H SH (h_enc : H -> SH) 
                (spec_port_kind (ct H h_type) (to_c06 (CodecOps.op_nf H h_nf o)) d z).
 Proof. exact spec_port_kind_nf. Qed.
 
+(* the same for EVERY payload type (any nesting depth of function constants) without any hypothesis, for every
+   operation holding no function-valued constant ([no_payload]: the guard admitting no payload, under which
+   C05's [OpOK] excludes exactly the constants containing a val.Function) *)
+Theorem C06_codec_preserves_spec_signature_no_function_constants : forall H SH (h_enc : H -> SH) (h_dec : SH -> H) h_type,
+  forall (o : CodecOps.op H) (parent : N), CodecOpsP.OpOK H (@no_payload H) o ->
+    let o2 := CodecOps.op_deserialize H SH h_dec (CodecOps.op_to_serial H SH h_enc o parent) in
+    (forall s, has_sig (to_c06 o) s ->
+       exists s2 f2, has_sig (to_c06 o2) s2 /\ rows_same s s2 /\ df_sig (to_c06 o2) = Ret f2 /\ (f_in f2, f_out f2) = s2) /\
+    (forall s2, has_sig (to_c06 o2) s2 -> exists s, has_sig (to_c06 o) s /\ rows_same s s2) /\
+    (forall s, has_inner_sig (to_c06 o) s ->
+       exists s2 f2, has_inner_sig (to_c06 o2) s2 /\ rows_same s s2 /\ inner_sig (to_c06 o2) = Ret f2 /\ (f_in f2, f_out f2) = s2) /\
+    (forall n, spec_num_out (to_c06 o) = Some n ->
+       spec_num_out (to_c06 o2) = Some n /\ num_out (to_c06 o2) = Ret (Z.of_nat n)) /\
+    (forall d z, match spec_port_kind (ct H h_type) (to_c06 o) d z with
+                 | Port k => exists k2, port_kind (vt H h_type) (to_c06 o2) d z = Ret k2 /\ kind_same k k2
+                 | NoPort => is_typed (port_kind (vt H h_type) (to_c06 o2) d z) = false
+                 | Unspecified => True
+                 end) /\
+    CodecOps.op_facts H h_type o2 = enc_reports (c06_reports H h_type (to_c06 o)).
+Proof. exact codec_preserves_spec_no_function_constants. Qed.
+
+(* the translation forgets nothing but the description of an ExtOp's definition (not part of the model above) *)
+Theorem C06_codec_translation_faithful : forall H (o : CodecOps.op H), of_c06 (to_c06 o) = Some (forget_descr o).
+Proof. exact of_c06_to_c06. Qed.
+(* the two independently written models of _CallOrLoad.__init__ agree: C05's guard CallWF (the object is one the
+   constructor can have built) holds exactly when the constructor model above builds the translated operation *)
+Theorem C06_codec_call_constructors_agree : forall H (sig : Codec.polytype) (inst : Codec.functype) (ta : list tyarg),
+  (CodecOpsP.CallWF sig inst ta <->
+     call_new (pl sig) (Some (fn inst)) (Some ta) = Ret (to_c06 (CodecOps.OCall (H:=H) sig inst ta))) /\
+  (CodecOpsP.CallWF sig inst ta <->
+     loadfunc_new (pl sig) (Some (fn inst)) (Some ta) = Ret (to_c06 (CodecOps.OLoadFunc (H:=H) sig inst ta))).
+Proof. exact call_constructors_agree. Qed.
+
 (* C05's sugar tag operations are the sugar constructors of the model above, with the specified signature *)
 Theorem C06_codec_sugar_tags : forall H (s : CodecOps.tagsugar),
   to_c06 (CodecOps.sugar_tag H s) =
@@ -363,3 +396,6 @@ Print Assumptions C06_codec_example_call.
 Print Assumptions C06_codec_example_tailloop.
 Print Assumptions C06_codec_example_conditional.
 Print Assumptions C06_codec_example_tag_sugar.
+Print Assumptions C06_codec_preserves_spec_signature_no_function_constants.
+Print Assumptions C06_codec_translation_faithful.
+Print Assumptions C06_codec_call_constructors_agree.
